@@ -8,6 +8,7 @@
 typedef struct { uint8_t node, armed, events, last; uint16_t time, rem; } MEnt;
 static struct { MEnt e[4]; int n; int stopped; } M;
 static int NENT;
+static uint32_t MSPT = 1;     /* --opt slow=1: 100 Hz timer, i.e. 10 ms per tick; every time of the alphabet is then given in units of 10 ms */
 
 static const uint8_t HB_NODE[] = { NX, NY, NZ }, HB_STATE[] = { 0, 4, 5, 127 };
 static const uint8_t WR_NODE[] = { NX, NX, NX, NY, NY, NY, 0 };  static const uint16_t WR_TIME[] = { 0, 2, 3, 0, 2, 3, 0 };
@@ -21,8 +22,9 @@ static int build(int cfg)
     static const struct { int n; uint8_t node[4]; uint16_t time[4]; } C[] = {
         { 1, { NX }, { 2 } }, { 2, { NX, NY }, { 2, 3 } }, { 2, { NX, 0 }, { 2, 0 } }, { 3, { NX, NY, 0 }, { 2, 3, 0 } }, { 3, { 0, 0, 0 }, { 0, 0, 0 } }, { 4, { NX, NY, 0, 0 }, { 3, 2, 0, 0 } } };
     nc_defaults();
+    MSPT = mc_opt("slow", 0) ? 10 : 1; NC.freq = 1000 / MSPT;
     NENT = C[cfg].n; NC.n_hbc = NENT;
-    for (int i = 0; i < NENT; i++) { NC.hbc[i].node = C[cfg].node[i]; NC.hbc[i].time = C[cfg].time[i]; }
+    for (int i = 0; i < NENT; i++) { NC.hbc[i].node = C[cfg].node[i]; NC.hbc[i].time = (uint16_t)(C[cfg].time[i] * MSPT); }
     nc_build();
     (void)CONodeGetErr(&Node);
     memset(&M, 0, sizeof M); M.n = NENT;
@@ -79,7 +81,7 @@ static int step(int e)
         check_cbs(ev_expect, chg_node, chg_mode);
     } else if (e < ev_getev0) {
         int k = (e - ev_write0) / NWR, r = (e - ev_write0) % NWR; uint8_t node = WR_NODE[r]; uint16_t time = WR_TIME[r];
-        uint32_t val = ((uint32_t)node << 16) | time, back = 0, res;
+        uint32_t val = ((uint32_t)node << 16) | (time * MSPT), back = 0, res;
         if (M.stopped) return MC_SKIP;                      /* no SDO service in STOPPED */
         res = nc_sdo_write(0x1016, (uint8_t)(k + 1), val, 4);
         if (time > 0 && mon(node) >= 0) {
@@ -90,7 +92,7 @@ static int step(int e)
         }
         check_cbs(ev_expect, -1, 0);
         OBS.ntx = 0;
-        if (nc_sdo_read(0x1016, (uint8_t)(k + 1), &back) != 0 || back != (((uint32_t)M.e[k].node << 16) | M.e[k].time))
+        if (nc_sdo_read(0x1016, (uint8_t)(k + 1), &back) != 0 || back != (((uint32_t)M.e[k].node << 16) | (M.e[k].time * MSPT)))
             mc_fail("hbc-readback", "entry %d reads back %08X, expected node %d time %d", k + 1, back, M.e[k].node, M.e[k].time);
     } else if (e < ev_last0) {
         uint8_t node = HB_NODE[e - ev_getev0]; int k = mon(node);
